@@ -85,14 +85,43 @@ func (m SliceDotsMatcher) Match(got reflect.Value, d data.Data, r Region) (data.
 		return d, false
 	}
 
-	for i, section := range m.Sections[1:] {
-		idx, d, ok = findSection(m.Dots[i], section, gotItems, d, r, idx)
+	return m.matchSections(0, gotItems, d, r, idx)
+}
+
+// matchSections matches Sections[i+1:] against got[idx:]. Each "..." takes
+// the shortest run of items for which the section after it, and then all
+// remaining sections, match with the list fully consumed: if a candidate
+// position for a section does not lead to a full match, later positions are
+// tried.
+//
+// Invariant: If ok is true, a list of skipped items will have been pushed to
+// Data for every "...".
+func (m SliceDotsMatcher) matchSections(i int, got []reflect.Value, d data.Data, r Region, idx int) (_ data.Data, ok bool) {
+	if i == len(m.Sections)-1 {
+		return d, idx == len(got)
+	}
+
+	dots, want := m.Dots[i], m.Sections[i+1]
+
+	// Special case: Looking for "..." at the end of the list. Skip everything
+	// in got.
+	if len(want) == 0 && i+1 == len(m.Sections)-1 {
+		sr := sectionRegion(got, r, idx, len(got))
+		return pushSliceDotsSkipped(d, dots, got[idx:], sr), true
+	}
+
+	for j := idx; j+len(want) <= len(got); j++ {
+		sr := sectionRegion(got, r, idx, j)
+		newIdx, newD, ok := matchPrefix(want, got, pushSliceDotsSkipped(d, dots, got[idx:j], sr), sr, j)
 		if !ok {
-			return d, false
+			continue
+		}
+		if newD, ok := m.matchSections(i+1, got, newD, r, newIdx); ok {
+			return newD, true
 		}
 	}
 
-	return d, idx == len(gotItems)
+	return d, false
 }
 
 // Returns Region for items[start:end].
@@ -126,32 +155,6 @@ func matchPrefix(want []Matcher, got []reflect.Value, d data.Data, r Region, idx
 	}
 
 	return idx + len(want), d, true
-}
-
-// findSection attempts to match want starting at got[idx], moving onto idx+1,
-// idx+2, and so on until a match is found. Returns the new index for the
-// remaining matches.
-//
-// Invariant: If ok is true, a list of skipped items will have been pushed to
-// Data.
-func findSection(dots token.Pos, want []Matcher, got []reflect.Value, d data.Data, r Region, idx int) (newIdx int, _ data.Data, ok bool) {
-	// Special case: Looking for "..." at the end of the list. Skip everything
-	// in got.
-	if len(want) == 0 {
-		r := sectionRegion(got, r, idx, len(got))
-		d := pushSliceDotsSkipped(d, dots, got[idx:], r)
-		return matchPrefix(want, got, d, r, len(got))
-	}
-
-	for i := idx; i < len(got); i++ {
-		r := sectionRegion(got, r, idx, i)
-		newIdx, newD, ok := matchPrefix(want, got, pushSliceDotsSkipped(d, dots, got[idx:i], r), r, i)
-		if ok {
-			return newIdx, newD, ok
-		}
-	}
-
-	return idx, d, false
 }
 
 // SliceDotsReplacer replaces target nodes and reproduces the values captured by
